@@ -3,3 +3,6 @@ import DisjointImpls.Match
 import DisjointImpls.RevSub
 import DisjointImpls.Key
 import DisjointImpls.Sexpr
+import DisjointImpls.Sem
+import DisjointImpls.Bounds
+import DisjointImpls.Lemmas.Refine
